@@ -4,6 +4,7 @@ Proof stage: Props/C01.vo (17 pinned theorems about Model/Cql.v + Model/Vint.v).
 Tie stage: harness/src/bin/c01.rs runs the real scylla-cql-core codec, ocaml/c01/driver evaluates
 the extracted model; census of the Rust enums / tables the model was written from.
 """
+import json
 import os
 import re
 
@@ -22,9 +23,23 @@ COLLECTIONTYPE = ["List", "Map", "Set"]
 VEC_SIZE = {"Boolean": 1, "Double": 8, "Float": 4, "Int": 4, "BigInt": 8, "Timestamp": 8, "Timeuuid": 16, "Uuid": 16}
 NOT_EMPTYABLE = ["Native(NativeType::Counter)", "Native(NativeType::Duration)", "Collection", "UserDefinedType"]
 EMPTY_RULE_EXEMPT = ["Ascii", "Blob", "Text"]
-# impl heads of the typed carriers (generic parameters stripped) the tie was written against
-SER_IMPLS = 51
-DESER_IMPLS = 55
+# impl heads of the typed carriers the tie was written against: checks/c01_heads.json (sorted lists,
+# continuation lines joined, macro invocations by their first argument)
+HEADS_FILE = os.path.join(ROOT, "checks", "c01_heads.json")
+
+
+def _impl_heads(path, trait):
+    src = re.sub(r"//[^\n]*", "", open(path).read())
+    out = []
+    for m in re.finditer(r"^impl\b[^{;]*?\b" + trait + r"\b[^{;]*?\{", src, re.M | re.S):
+        h = " ".join(m.group(0)[:-1].split())
+        if re.search(r"\b" + trait + r"(<[^>]*>)?\s+for\b", h):
+            out.append(h)
+    for m in re.finditer(r"^(impl_\w+!)\(\s*([^,]+?),", src, re.M):
+        out.append(m.group(1) + " " + " ".join(m.group(2).split()))
+    for m in re.finditer(r"^(impl_tuples!|impl_tuple_multiple!)\(", src, re.M):
+        out.append(m.group(1))
+    return sorted(out)
 
 
 def _enum_variants(src, name):
@@ -92,19 +107,66 @@ def census():
     ex = re.findall(r"Native\((\w+)\)", m.group(1)) if m else []
     if ex != EMPTY_RULE_EXEMPT:
         bad.append(f"empty-cell rule exemptions changed: {ex}")
-    # carriers
-    ns = len(re.findall(r"^impl[^\n]*\bSerializeValue\s+for\b", ser_rs, re.M))
-    nd = len(re.findall(r"^impl[^\n]*\bDeserializeValue<'frame, 'metadata>\s*(?:\n\s*)?for\b", de_rs, re.M)) + \
-        len(re.findall(r"^impl_(?:strict_type|fixed_numeric_type|string_type)!\(", de_rs, re.M))
-    if ns != SER_IMPLS:
-        bad.append(f"number of `impl SerializeValue for` heads changed: {ns} (tie written against {SER_IMPLS})")
-    if nd != DESER_IMPLS:
-        bad.append(f"number of DeserializeValue impls changed: {nd} (tie written against {DESER_IMPLS})")
+    # carriers: the named list of impl heads
+    want_heads = json.load(open(HEADS_FILE))
+    for key, path, trait in (("serialize", "serialize/value.rs", "SerializeValue"),
+                             ("deserialize", "deserialize/value.rs", "DeserializeValue")):
+        got = _impl_heads(os.path.join(CORE, path), trait)
+        if got != want_heads[key]:
+            added = [h for h in got if h not in want_heads[key]]
+            gone = [h for h in want_heads[key] if h not in got]
+            bad.append(f"{trait} impl heads changed: added {added} removed {gone}")
+    return bad
+
+
+# per-kind floors (fraction of the tier size) and directed-case floors: a runner that silently stops
+# emitting a kind, or a generator that stops reaching a class of inputs, is a broken correspondence
+KIND_FLOOR = {"R": 0.40, "T": 0.30, "D": 0.06, "N": 0.03, "V": 0.012, "Q": 0.006}
+MAPPED = "00000000000000000000ffff"
+
+
+def floors(lines, verdicts):
+    bad = []
+    if len(lines) < 1000:          # replay / corpus-only runs
+        return bad
+    n = len(lines)
+    kinds = {}
+    for ln in lines:
+        k = ln.split(" ", 1)[0]
+        kinds[k] = kinds.get(k, 0) + 1
+    for k, frac in KIND_FLOOR.items():
+        if kinds.get(k, 0) < frac * n:
+            bad.append(f"only {kinds.get(k, 0)} cases of kind {k} (< {frac:.3f} of {n})")
+    def count(pred):
+        return sum(1 for ln in lines if pred(ln))
+    checks = [
+        ("IPv4-mapped inet through the dynamic path", 20, lambda l: l.startswith("R ") and "inet:" + MAPPED in l),
+        ("IPv4-mapped inet through typed carriers", 10, lambda l: l.startswith("T ") and "inet:" + MAPPED in l),
+        ("typed carriers exercised", 0, None),
+        ("vector element with a >= 3-byte vint length", 1, lambda l: l.startswith("R V(blob;3)") and len(l) > 60000),
+        ("collection with >= 256 elements", 2, lambda l: l.count(";") >= 256 and l[:2] in ("R ", "T ")),
+        ("short tuples", 50, lambda l: l.startswith("R ") and "tuple(" in l),
+        ("typed null / unset vector elements", 20, lambda l: l.startswith("V ") and ("null" in l.split("|")[0] or "unset" in l.split("|")[0])),
+        ("typed null list elements", 20, lambda l: l.startswith("Q ") and "null" in l.split("|")[0]),
+        ("decode errors on corrupted bytes", 200, lambda l: l.startswith("D ") and "| err:" in l),
+        ("9-byte vints", 6, lambda l: l.startswith("N ") and l.split("|")[1].strip().startswith("ff")),
+    ]
+    for name, floor, pred in checks:
+        if pred is not None and count(pred) < floor:
+            bad.append(f"floor not reached: {name}: {count(pred)} < {floor}")
+    carriers = {ln.split(" ")[1] for ln in lines if ln.startswith("T ")}
+    if len(carriers) < 120:
+        bad.append(f"only {len(carriers)} typed carriers exercised (< 120)")
+    for needed in ("RefStr", "CowStr", "BoxStr", "ArcStr", "RefSlice", "VarintB", "DecimalB", "IpAddr", "Option<IpAddr>"):
+        if needed not in carriers:
+            bad.append(f"carrier {needed} not exercised")
     return bad
 
 
 def post(lines, verdicts):
-    return [("diff", "census", "diff census: " + b) for b in census()]
+    out = [("diff", "census", "diff census: " + b) for b in census()]
+    out += [("diff", "coverage-floor", "diff floor: " + b) for b in floors(lines, verdicts)]
+    return out
 
 
 def _depth(s):
@@ -120,6 +182,8 @@ def _depth(s):
 
 def extra_coverage(lines, verdicts):
     cov = {"type_depth_histogram": {}, "carriers": 0, "ser_ok": 0, "ser_err": 0, "deser_err": 0,
+           "outside_quantifier_accepted_not_read_back": sum(1 for v in verdicts if v and v.startswith("ok obs=")),
+           "ipv4_mapped_inet_cases": sum(1 for ln in lines if "inet:" + MAPPED in ln),
            "known_class_hits": {}, "census": "in step" if not census() else "MISMATCH"}
     carriers = set()
     for ln, v in zip(lines, verdicts):
@@ -151,6 +215,7 @@ SPEC = {
     "bin": "c01",
     "sizes": {"quick": 150000, "thorough": 3000000},
     "search_n": 400000,
+    "min_cases": {"quick": 140000, "thorough": 2800000},
     "rule": ("fixed part: every vint length class boundary (2^k, 2^k +- 1, both signs) and every native type x "
              "{empty, null, unset}; then seeded random cases, type nesting depth <= 4 (quick) / 6 (thorough): "
              "R = (column type, cell) through SerializedValues::add_value(&CqlValue) and Option<CqlValue>::deserialize "
